@@ -99,8 +99,9 @@ def run(tier, seed):
     # assets with a coarser frequency of their own whose window ends inside the horizon, on and off a coarse boundary
     fams.append(('coarse_window', fam.renumber([c for c in fam.fam_coarse(thorough=th) if c['T'] >= 6])))
     # scaled assets whose own window (fixed costs per covered time) differs from the horizon and from the base asset's window
-    sc = [c for c in fam.fam_scaled(thorough=th) if any('fws' in a and ((a['fws'], a['fwe']) != (a['ws'], a['we']) or a['fwe'] <= 1 or a['fws'] > c['T']) for a in c['assets'])]
-    fams.append(('scaled_window', fam.renumber(sc if th else sc[seed % 3::3])))
+    sc = [c for c in fam.fam_scaled() if any('fws' in a and ((a['fws'], a['fwe']) != (a['ws'], a['we']) or a['fwe'] <= 1 or a['fws'] > c['T']) for a in c['assets'])]
+    # (a third of them per seed in both tiers: the wide capacity ranges of the scaled families make them the largest enumerations here)
+    fams.append(('scaled_window', fam.renumber(sc[seed % 3::3])))
     if th:
         fams.append(('placement_T4', fam.fam_placement(T=4)))
     for tag, cfgs in fams:
